@@ -105,6 +105,16 @@ CHECKS = {
          'pre/post space is cut at an index the matching position is recomputed with the same index; longest-match specials.'),
    note='The concatenation identity over whole token sequences is a run-time statement and is not decided. Widths of four sites use reviewed lemmas (posi, environment name match, paragraph span, comment span).',
    technique='affine normalisation of token spans, transitive self-write effect analysis, paired-truncation rule, shape rules on next/move methods'),
+ 'C01': dict(level='other', design='DESIGN.md section 5, C01',
+   text=('Span algebra at every node construction site: for each of the chars-node sites pos_end - pos - len(chars) is '
+         'normalised (affine normaliser, reaching definitions, token-span lemma) and must be 0; comment/macro/specials nodes '
+         'forward all fields of one token; group, math and call nodes run from their opening token to the reader position '
+         'taken after their content, and the stop handler consumes the closing token; a path analysis of process_one_token '
+         'shows the leading whitespace of every token is consumed exactly once on every exit; verbatim truncations are '
+         'paired with position updates; tolerant recovery nodes agree with the resume point; node-list spans and '
+         'latex_verbatim have the documented shape.'),
+   note='That the spans produced by different cooperating parsers tile the input (no gap/overlap between siblings) is a run-time relation between sites and is not decided.',
+   technique='affine span normalisation at construction sites, def-use field forwarding, path-sensitive must-consume analysis of the token dispatcher, paired-truncation rule'),
 }
 
 NOT_YET = {}
